@@ -1,1 +1,390 @@
-/-! # C01 — property theorems (stub) -/
+import Okane.Lemmas.BookSpec
+import Okane.Lemmas.Num
+/-!
+# C01 — accepted transactions balance; unbalanced ones are rejected, not crashed on
+
+Theorems about `Okane.addTransaction` (model of `add_transaction` + `check_balance`, after name resolution),
+for every prior balance, every posting list and every iteration order of the residual map.
+-/
+set_option linter.unusedSectionVars false
+namespace Okane
+variable {α κ : Type} [DecidableEq α] [DecidableEq κ]
+open Spec
+
+/-- rounding commutes with reading a commodity's value -/
+theorem rounded_getPart (prec : κ → Option Nat) (a : Amount κ) (c : κ) :
+    Spec.rounded prec (fun c => Amount.getPart a c) c = Amount.getPart (Amount.round prec a) c := by
+  rw [Amount.getPart_round]
+  unfold Spec.rounded Amount.getPart
+  cases hg : AMap.get? a c with
+  | none =>
+    cases prec c with
+    | none => simp [hg]
+    | some dp => simp [hg, roundHalfEven_zero]
+  | some v => cases prec c <;> simp [hg]
+
+/-- the omitted-amount postings seen by the loop -/
+theorem loop_omitted (date : Date) (ps : List (RPosting α κ)) (st st' : TxnState α κ) (idx : Nat)
+    (h : loopPostings date st idx ps = .ok st') :
+    (st.unfilled = none → (st'.unfilled = none ∧ omittedCount ps = 0) ∨ (st'.unfilled.isSome ∧ omittedCount ps = 1)) ∧
+    (st.unfilled.isSome → st'.unfilled = st.unfilled ∧ omittedCount ps = 0) := by
+  induction ps generalizing st idx with
+  | nil => simp [loopPostings] at h; subst h; simp [omittedCount]
+  | cons p ps ih =>
+    simp only [loopPostings] at h
+    split at h
+    · rename_i st1 h1
+      have ih' := ih st1 (idx + 1) h
+      by_cases hom : isOmitted p = true
+      · -- omitted posting
+        have ha : p.amount = none := by simp [isOmitted] at hom; exact hom.1
+        have hb : p.balance = none := by simp [isOmitted] at hom; exact hom.2
+        rw [stepPosting_omitted date st idx p ha hb] at h1
+        cases hu : st.unfilled with
+        | some first => simp [hu] at h1
+        | none =>
+          simp only [hu, Outcome.ok.injEq] at h1
+          have hst1 : st1.unfilled = some idx := by rw [← h1]
+          have := ih'.2 (by simp [hst1])
+          refine ⟨fun _ => Or.inr ⟨by rw [this.1, hst1]; rfl, ?_⟩, by simp⟩
+          simp [omittedCount, hom] at this ⊢
+          exact this.2
+      · -- any other posting leaves `unfilled` as it is
+        have hunf : st1.unfilled = st.unfilled := by
+          cases ha : p.amount with
+          | some ra =>
+            rw [stepPosting_amount date st idx p ra ha] at h1
+            split at h1
+            · simp at h1
+            · simp only [Outcome.ok.injEq] at h1; rw [← h1]
+          | none =>
+            cases hb : p.balance with
+            | none => simp [isOmitted, ha, hb] at hom
+            | some x =>
+              rw [stepPosting_assign date st idx p x ha hb] at h1
+              split at h1
+              · split at h1
+                · simp only [Outcome.ok.injEq] at h1; rw [← h1]
+                all_goals simp at h1
+              all_goals simp at h1
+        have hcount : omittedCount (p :: ps) = omittedCount ps := by
+          simp [omittedCount, hom]
+        rw [hcount, ← hunf]
+        exact ih'
+    all_goals simp at h
+
+/-- `fillConverted` never touches the amount -/
+theorem fillConverted_amount (a1 a2 : SingleAmount κ) (p : OutPosting α κ) :
+    (fillConverted a1 a2 p).amount = p.amount := by
+  unfold fillConverted
+  split
+  · split
+    · rfl
+    · split <;> rfl
+  · rfl
+
+/-- **C01_sound**: whatever `add_transaction` accepts is balanced in the sense of the property. -/
+theorem C01_sound (prec : κ → Option Nat) (bal : Balance α κ) (t : RTxn α κ) (res : TxnResult α κ)
+    (h : addTransaction prec bal t = .ok res) :
+    Spec.Balanced prec t (res.txn.postings.map (·.amount)) := by
+  unfold addTransaction at h
+  split at h
+  · rename_i st hloop
+    have hbal := BalOK_loop t.date t.posts _ st 0 hloop (BalOK_init bal)
+    obtain ⟨outs, ds, hp, hd, hal⟩ := loop_aligned t.date t.posts _ st 0 hloop
+    simp only [List.nil_append] at hp hd
+    have hom := (loop_omitted t.date t.posts _ st 0 hloop).1 rfl
+    split at h
+    · -- an omitted posting absorbed the remainder
+      rename_i u hu
+      rcases hom with ⟨h1, _⟩ | ⟨_, h2⟩
+      · simp [hu] at h1
+      · exact Or.inr (Or.inl h2)
+    · rename_i hu
+      split at h
+      · rename_i postings pe hcb
+        simp only [Outcome.ok.injEq] at h
+        subst h
+        simp only
+        -- totals of the result are the running balance
+        have htot : ∀ postings' : List (OutPosting α κ), postings'.map (·.amount) = st.postings.map (·.amount) →
+            ∀ c, Spec.total t.posts (postings'.map (·.amount)) c = Amount.getPart st.balance c := by
+          intro postings' hm c
+          rw [hm, hp, ← aligned_total t.posts outs ds hal c, hbal.2 c, hd]
+        unfold checkBalance at hcb
+        simp only at hcb
+        split at hcb
+        · -- rounded residual is zero everywhere
+          rename_i hz
+          simp only [Outcome.ok.injEq, Prod.mk.injEq] at hcb
+          obtain ⟨hpost, _⟩ := hcb
+          subst hpost
+          left
+          intro c
+          have hfun : Spec.total t.posts (st.postings.map (·.amount)) = fun c => Amount.getPart st.balance c :=
+            funext (htot st.postings rfl)
+          rw [hfun, rounded_getPart]
+          exact (Amount.isZero_iff_getPart _ (Amount.WF_round _ _ hbal.1)).1 hz c
+        · rename_i hz
+          split at hcb
+          · -- implied exchange between exactly two commodities
+            rename_i a1 a2 himp
+            simp only [Outcome.ok.injEq, Prod.mk.injEq] at hcb
+            obtain ⟨hpost, _⟩ := hcb
+            subst hpost
+            right; right
+            have hm : (st.postings.map (fillConverted a1 a2)).map (·.amount) = st.postings.map (·.amount) := by
+              simp [List.map_map, Function.comp_def, fillConverted_amount]
+            have hfun : Spec.total t.posts ((st.postings.map (fillConverted a1 a2)).map (·.amount)) =
+                fun c => Amount.getPart st.balance c := funext (htot _ hm)
+            rw [hfun]
+            -- shape of the rounded residual
+            unfold impliedExchange at himp
+            split at himp
+            · rename_i b1 b2 hpair
+              split at himp
+              · rename_i hcond
+                simp only [Option.some.injEq, Prod.mk.injEq] at himp
+                obtain ⟨e1, e2⟩ := himp
+                subst e1; subst e2
+                -- the rounded map is exactly the two entries
+                have hshape : Amount.round prec st.balance = [(b1.commodity, b1.value), (b2.commodity, b2.value)] := by
+                  unfold Amount.maybePair at hpair
+                  split at hpair
+                  · rename_i c1 v1 c2 v2 heq
+                    simp only [Option.some.injEq, Prod.mk.injEq] at hpair
+                    obtain ⟨e1, e2⟩ := hpair
+                    subst e1; subst e2
+                    exact heq
+                  · simp at hpair
+                have hwf := Amount.WF_round prec _ hbal.1
+                rw [hshape] at hwf
+                have hne : b1.commodity ≠ b2.commodity := by
+                  unfold AMap.WF AMap.keys at hwf
+                  simp at hwf
+                  exact hwf
+                refine ⟨b1.commodity, b2.commodity, hne, ?_, ?_, ?_, ?_⟩
+                · rw [rounded_getPart, hshape]; simp [Amount.getPart, AMap.get?]; exact hcond.1
+                · rw [rounded_getPart, hshape]; simp [Amount.getPart, AMap.get?, hne]; exact hcond.2.1
+                · rw [rounded_getPart, rounded_getPart, hshape]
+                  simp [Amount.getPart, AMap.get?, hne]
+                  obtain ⟨n1, n2, hs⟩ := hcond
+                  have h1 : ¬ ((0 ≤ b1.value) ↔ (0 ≤ b2.value)) := fun hh => hs (propext hh)
+                  grind
+                · intro c hc1 hc2
+                  rw [rounded_getPart, hshape]
+                  simp [Amount.getPart, AMap.get?, Ne.symm hc1, Ne.symm hc2]
+              · simp at himp
+            · simp at himp
+          · simp at hcb
+      all_goals simp at h
+  all_goals simp at h
+
+end Okane
+
+namespace Okane
+variable {α κ : Type} [DecidableEq α] [DecidableEq κ]
+open Spec
+
+/-! ## no crash -/
+
+theorem SingleAmount.checkAdd_no_crash (a b : SingleAmount κ) : (a.checkAdd b).crashes = false := by
+  unfold SingleAmount.checkAdd; split <;> rfl
+
+theorem PostingAmt.checkSub_no_crash (l r : PostingAmt κ) : (l.checkSub r).crashes = false := by
+  unfold PostingAmt.checkSub PostingAmt.checkAdd
+  cases l <;> cases r <;> simp [PostingAmt.neg, Outcome.crashes]
+  rename_i a b
+  have := SingleAmount.checkAdd_no_crash a b.neg
+  cases h : a.checkAdd b.neg <;> simp [Outcome.map', Outcome.crashes, h] at this ⊢
+
+theorem Balance.setPartial_no_crash (b : Balance α κ) (a : α) (x : PostingAmt κ) :
+    (Balance.setPartial b a x).crashes = false := by
+  cases x with
+  | zero =>
+    simp only [Balance.setPartial]
+    cases (Balance.get b a).toPosting <;> rfl
+  | single s => rfl
+
+theorem processPosting_no_crash (bal : Balance α κ) (date : Date) (idx : Nat) (p : RPosting α κ) :
+    (processPosting bal date idx p).crashes = false := by
+  unfold processPosting
+  cases p.amount with
+  | none =>
+    cases p.balance with
+    | none => rfl
+    | some current =>
+      simp only
+      have h1 := Balance.setPartial_no_crash bal p.account current
+      cases hs : Balance.setPartial bal p.account current with
+      | ok r =>
+        obtain ⟨bal', prev⟩ := r
+        simp only
+        have h2 := PostingAmt.checkSub_no_crash current prev
+        cases hc : current.checkSub prev <;> simp [Outcome.crashes, hc] at h2 ⊢
+      | err e => rfl
+      | panic s => rw [hs] at h1; simp [Outcome.crashes] at h1
+      | fuelOut => rw [hs] at h1; simp [Outcome.crashes] at h1
+  | some ra =>
+    simp only
+    split <;> rfl
+
+theorem stepPosting_no_crash (date : Date) (st : TxnState α κ) (idx : Nat) (p : RPosting α κ) :
+    (stepPosting date st idx p).crashes = false := by
+  have := processPosting_no_crash st.bal date idx p
+  unfold stepPosting
+  split
+  · rfl
+  · split <;> rfl
+  · rfl
+  · rename_i s hs; rw [hs] at this; simp [Outcome.crashes] at this
+  · rename_i hs; rw [hs] at this; simp [Outcome.crashes] at this
+
+theorem loopPostings_no_crash (date : Date) (ps : List (RPosting α κ)) (st : TxnState α κ) (idx : Nat) :
+    (loopPostings date st idx ps).crashes = false := by
+  induction ps generalizing st idx with
+  | nil => rfl
+  | cons p ps ih =>
+    have := stepPosting_no_crash date st idx p
+    simp only [loopPostings]
+    split
+    · exact ih _ _
+    · rfl
+    · rename_i s hs; rw [hs] at this; simp [Outcome.crashes] at this
+    · rename_i hs; rw [hs] at this; simp [Outcome.crashes] at this
+
+/-- position bookkeeping of the loop: `idx` is the number of postings emitted so far and the omitted
+posting's index points at one of them -/
+def TxnState.IdxOK (st : TxnState α κ) (idx : Nat) : Prop :=
+  st.postings.length = idx ∧ ∀ u, st.unfilled = some u → u < st.postings.length
+
+theorem IdxOK_step (date : Date) (st st' : TxnState α κ) (idx : Nat) (p : RPosting α κ)
+    (h : stepPosting date st idx p = .ok st') (hi : st.IdxOK idx) : st'.IdxOK (idx + 1) := by
+  obtain ⟨out, d, hp, _, _, _⟩ := stepPosting_shape date st st' idx p h
+  refine ⟨by rw [hp]; simp [hi.1], fun u hu => ?_⟩
+  rw [hp]; simp only [List.length_append, List.length_cons, List.length_nil]
+  -- either `unfilled` was already set, or it was set now to `idx`
+  unfold stepPosting at h
+  split at h
+  · simp only [Outcome.ok.injEq] at h; subst h
+    have := hi.2 u hu; omega
+  · split at h
+    · simp at h
+    · simp only [Outcome.ok.injEq] at h; subst h
+      simp only [Option.some.injEq] at hu
+      have := hi.1; omega
+  all_goals simp at h
+
+theorem IdxOK_loop (date : Date) (ps : List (RPosting α κ)) (st st' : TxnState α κ) (idx : Nat)
+    (h : loopPostings date st idx ps = .ok st') (hi : st.IdxOK idx) : st'.IdxOK (idx + ps.length) := by
+  induction ps generalizing st idx with
+  | nil => simp [loopPostings] at h; subst h; simpa using hi
+  | cons p ps ih =>
+    simp only [loopPostings] at h
+    split at h
+    · rename_i st1 h1
+      have := ih st1 (idx + 1) h (IdxOK_step date st st1 idx p h1 hi)
+      simp only [List.length_cons]
+      have e : idx + (ps.length + 1) = idx + 1 + ps.length := by omega
+      rw [e]; exact this
+    all_goals simp at h
+
+theorem checkBalance_no_crash (prec : κ → Option Nat) (date : Date) (postings : List (OutPosting α κ)) (b : Amount κ) :
+    (checkBalance prec date postings b).crashes = false := by
+  unfold checkBalance
+  simp only
+  split
+  · rfl
+  · split <;> rfl
+
+/-- **C01_no_crash**: `add_transaction` never panics and never loops, whatever the transaction and history. -/
+theorem C01_no_crash (prec : κ → Option Nat) (bal : Balance α κ) (t : RTxn α κ) :
+    (addTransaction prec bal t).crashes = false := by
+  have hl := loopPostings_no_crash t.date t.posts (⟨[], none, [], bal, [], []⟩ : TxnState α κ) 0
+  unfold addTransaction
+  split
+  · rename_i st hloop
+    have hidx := IdxOK_loop t.date t.posts _ st 0 hloop ⟨rfl, by simp⟩
+    split
+    · rename_i u hu
+      have hlt := hidx.2 u hu
+      simp only
+      split
+      · rfl
+      · rename_i hnone
+        simp at hnone
+        omega
+    · have hcb := checkBalance_no_crash prec t.date st.postings st.balance
+      cases hc : checkBalance prec t.date st.postings st.balance with
+      | ok r => rfl
+      | err e => rfl
+      | panic s => rw [hc] at hcb; simp [Outcome.crashes] at hcb
+      | fuelOut => rw [hc] at hcb; simp [Outcome.crashes] at hcb
+  · rfl
+  · rename_i s hs; rw [hs] at hl; simp [Outcome.crashes] at hl
+  · rename_i hs; rw [hs] at hl; simp [Outcome.crashes] at hl
+
+/-- **C01_reject**: a transaction that is not balanced (for any choice of inferred amounts) makes
+`add_transaction` return an error: it is never accepted and never crashes. -/
+theorem C01_reject (prec : κ → Option Nat) (bal : Balance α κ) (t : RTxn α κ)
+    (hnb : ∀ outs, ¬ Spec.Balanced prec t outs) :
+    ∃ e, addTransaction prec bal t = .err e := by
+  have hc := C01_no_crash prec bal t
+  cases h : addTransaction prec bal t with
+  | ok res => exact absurd (C01_sound prec bal t res h) (hnb _)
+  | err e => exact ⟨e, rfl⟩
+  | panic s => rw [h] at hc; simp [Outcome.crashes] at hc
+  | fuelOut => rw [h] at hc; simp [Outcome.crashes] at hc
+
+/-- **C01_complete**: if evaluating the postings and their assertions succeeds ("assertions permitting")
+and either one amount is omitted or the rounded totals are all zero, the transaction is accepted. -/
+theorem C01_complete (prec : κ → Option Nat) (bal : Balance α κ) (t : RTxn α κ) (st : TxnState α κ)
+    (hloop : loopPostings t.date ⟨[], none, [], bal, [], []⟩ 0 t.posts = .ok st)
+    (hgood : omittedCount t.posts = 1 ∨ AllZero prec (Spec.total t.posts (st.postings.map (·.amount)))) :
+    ∃ res, addTransaction prec bal t = .ok res := by
+  have hbal := BalOK_loop t.date t.posts _ st 0 hloop (BalOK_init bal)
+  obtain ⟨outs, ds, hp, hd, hal⟩ := loop_aligned t.date t.posts _ st 0 hloop
+  simp only [List.nil_append] at hp hd
+  have hom := (loop_omitted t.date t.posts _ st 0 hloop).1 rfl
+  have hidx := IdxOK_loop t.date t.posts _ st 0 hloop ⟨rfl, by simp⟩
+  have hc := C01_no_crash prec bal t
+  unfold addTransaction at hc ⊢
+  rw [hloop] at hc ⊢
+  simp only at hc ⊢
+  cases hu : st.unfilled with
+  | some u =>
+    simp only [hu] at hc ⊢
+    have hlt := hidx.2 u hu
+    have : st.postings[u]? = some st.postings[u] := by simp [hlt]
+    simp [this]
+  | none =>
+    simp only [hu] at hc ⊢
+    rcases hom with ⟨_, h0⟩ | ⟨h1, _⟩
+    · rcases hgood with h1 | hz
+      · omega
+      · -- rounded totals all zero ⇒ check_balance's first test succeeds
+        have hisz : (Amount.round prec st.balance).isZero = true := by
+          rw [Amount.isZero_iff_getPart _ (Amount.WF_round _ _ hbal.1)]
+          intro c
+          have := hz c
+          have hfun : Spec.total t.posts (st.postings.map (·.amount)) = fun c => Amount.getPart st.balance c := by
+            funext c
+            rw [hp, ← aligned_total t.posts outs ds hal c, hbal.2 c, hd]
+          rw [hfun, rounded_getPart] at this
+          exact this
+        simp [checkBalance, hisz]
+    · simp [hu] at h1
+
+-- non-vacuity: a concrete two-commodity transaction (keys and accounts are numbers) is accepted,
+-- a same-sign one is rejected, and the hypotheses above are satisfiable.
+example : (addTransaction (α := Nat) (κ := Nat) (fun _ => none) []
+    ⟨⟨2024, 1, 1⟩, [⟨0, some (.plain (.single ⟨10, 1⟩)), none⟩, ⟨1, some (.plain (.single ⟨-5, 2⟩)), none⟩]⟩).isOk = true := by
+  decide +kernel
+example : (addTransaction (α := Nat) (κ := Nat) (fun _ => none) []
+    ⟨⟨2024, 1, 1⟩, [⟨0, some (.plain (.single ⟨10, 1⟩)), none⟩, ⟨1, some (.plain (.single ⟨5, 2⟩)), none⟩]⟩).isErr = true := by
+  decide +kernel
+example : (addTransaction (α := Nat) (κ := Nat) (fun _ => none) []
+    ⟨⟨2024, 1, 1⟩, [⟨0, some (.plain (.single ⟨10, 1⟩)), none⟩, ⟨1, some (.plain (.single ⟨0, 2⟩)), none⟩]⟩).isErr = true := by
+  decide +kernel
+
+end Okane
